@@ -31,7 +31,7 @@ type c11Case struct {
 	Text string    `json:"text"`
 }
 
-var c11Kinds = []string{"priv64-mismatch", "priv96-match", "priv96-mismatch", "priv-len", "pub-len", "keytype", "keytype-wide", "keytype-wide",
+var c11Kinds = []string{"priv64-mismatch", "priv96-match", "priv96-mismatch", "priv-len", "pub-len", "keytype", "keytype-wide", "keytype-wide", "datalen-wide",
 	"pem-wrong-type", "pem-trailing", "pem-swap", "pem-corrupt"}
 
 func genC11(t *rapid.T) c11Case {
@@ -403,6 +403,15 @@ func c11Malformed(c c11Case, o *vstat.Outcome) *vstat.Violation {
 			kt = 2
 		}
 		in = privProto(std, kt)
+		wantAccept = 0
+	case "datalen-wide":
+		// a key message whose data field announces an absurd length
+		lens := []uint64{1 << 31, 1<<31 - 1, 1 << 32, 1 << 62, 1<<63 - 12, 1<<63 - 11, 1<<63 - 2, 1<<63 - 1, 1 << 63, ^uint64(0)}
+		tmp := make([]byte, 10)
+		in = append([]byte{0x08, 0x01, 0x12}, tmp[:binary.PutUvarint(tmp, lens[c.N%len(lens)])]...)
+		if c.N%3 == 0 {
+			in = append(in, std...)
+		}
 		wantAccept = 0
 	case "keytype-wide":
 		// key messages (private, or public when N is odd) whose key_type varint is unknown, huge, or negative as int32
